@@ -263,6 +263,8 @@ jobs:
             nested: {x: {y: z}}
         exclude:
           - os: [a, b, c]
+          - nested: {x: {y: z}}
+            os: [d, e, f]
     container:
       image: img
       env: ${{ fromJSON('{}') }}
@@ -781,7 +783,7 @@ func vMappingSchemaOf(np string, keys []string) (vMappingSchema, bool) {
 		return open()
 	case "jobs.*.container", "jobs.*.services.*":
 		return closed()
-	case "jobs.*.strategy.matrix.*[]", "jobs.*.strategy.matrix.*[].k", "jobs.*.strategy.matrix.include[].*", "jobs.*.strategy.matrix.include[].*.x", "jobs.*.strategy.matrix.exclude[].*":
+	case "jobs.*.strategy.matrix.*[]", "jobs.*.strategy.matrix.*[].k", "jobs.*.strategy.matrix.include[].*", "jobs.*.strategy.matrix.include[].*.x", "jobs.*.strategy.matrix.exclude[].*", "jobs.*.strategy.matrix.exclude[].*.x":
 		return vMappingSchema{Free: true}, true // nested matrix values are free-form
 	case "jobs.*.container.credentials", "jobs.*.services.*.credentials":
 		return closed("username", "password")
